@@ -105,6 +105,22 @@ type kaCase struct {
 	T      int
 	script []kaStep
 	tc     int64 // instant of cancellation (never a multiple of I)
+	busy   []kaBusy
+}
+
+// kaBusy: real sessions only. The Server (Client) value of the session under observation has a SECOND session, and
+// at instant `from` the peer of that other session sends a request whose user-supplied handler parks for `dur`
+// (server: resources/subscribe, resources/unsubscribe, tools/call, prompts/get, resources/read,
+// completion/complete; client: sampling/createMessage, elicitation/create). What another session's handler is
+// doing is no ping outcome: the keep-alive of the observed session must behave as if the other session were not there.
+type kaBusy struct {
+	kind      string
+	from, dur int64
+}
+
+var kaBusyKinds = map[string][]string{
+	"server": {"sub", "unsub", "tool", "prompt", "res", "compl"},
+	"client": {"sampling", "elicit"},
 }
 
 func (c *kaCase) op() string {
@@ -119,6 +135,13 @@ func (c *kaCase) op() string {
 	sc := "-"
 	if len(s) > 0 {
 		sc = strings.Join(s, ",")
+	}
+	if c.real != "" && len(c.busy) > 0 {
+		var b []string
+		for _, x := range c.busy {
+			b = append(b, fmt.Sprintf("%s@%d+%d", x.kind, x.from, x.dur))
+		}
+		return fmt.Sprintf("kas side=%s I=%d T=%d script=%s cancel=%d busy=%s", c.real, c.I, c.T, sc, c.tc, strings.Join(b, ";"))
 	}
 	if c.real != "" {
 		return fmt.Sprintf("kas side=%s I=%d T=%d script=%s cancel=%d", c.real, c.I, c.T, sc, c.tc)
@@ -164,7 +187,165 @@ func kaParse(op string) (*kaCase, bool) {
 			c.script = append(c.script, kaStep{p[0], d})
 		}
 	}
+	if b := kv["busy"]; b != "" && b != "-" {
+		for _, el := range strings.Split(b, ";") {
+			var x kaBusy
+			i, j := strings.IndexByte(el, '@'), strings.IndexByte(el, '+')
+			if i <= 0 || j < i {
+				return nil, false
+			}
+			x.kind = el[:i]
+			var e1, e2 error
+			x.from, e1 = strconv.ParseInt(el[i+1:j], 10, 64)
+			x.dur, e2 = strconv.ParseInt(el[j+1:], 10, 64)
+			ok := false
+			for _, k := range kaBusyKinds[c.real] {
+				ok = ok || k == x.kind
+			}
+			if e1 != nil || e2 != nil || !ok || x.from < 0 || x.dur < 0 {
+				return nil, false
+			}
+			c.busy = append(c.busy, x)
+		}
+	}
 	return c, true
+}
+
+// kaParker hands the scripted parking times to the handlers of the other session.
+type kaParker struct {
+	mu   sync.Mutex
+	q    map[string][]int64
+	done chan struct{} // closed at the end of the scenario: nothing may be left asleep when the bubble's root returns
+}
+
+func (p *kaParker) sleep(d int64) bool {
+	select {
+	case <-time.After(time.Duration(d)):
+		return true
+	case <-p.done:
+		return false
+	}
+}
+
+func (p *kaParker) put(kind string, d int64) {
+	p.mu.Lock()
+	defer p.mu.Unlock()
+	if p.q == nil {
+		p.q = map[string][]int64{}
+	}
+	p.q[kind] = append(p.q[kind], d)
+}
+
+func (p *kaParker) park(kind string) {
+	p.mu.Lock()
+	var d int64
+	if l := p.q[kind]; len(l) > 0 {
+		d, p.q[kind] = l[0], l[1:]
+	}
+	p.mu.Unlock()
+	p.sleep(d)
+}
+
+// kaOtherServerSession gives srv a second session (a real Client over in-memory transports) and schedules the busy
+// requests on it; the returned function closes it.
+func kaOtherServerSession(ctx context.Context, srv *Server, pk *kaParker, busy []kaBusy) (func(), error) {
+	ta, tb := NewInMemoryTransports()
+	ssOther, err := srv.Connect(ctx, ta, nil)
+	if err != nil {
+		return nil, err
+	}
+	cl := NewClient(&Implementation{Name: "other", Version: "1"}, nil)
+	cs, err := cl.Connect(ctx, tb, nil)
+	if err != nil {
+		return nil, err
+	}
+	for _, b := range busy {
+		go func(b kaBusy) {
+			defer func() { recover() }()
+			if !pk.sleep(b.from) {
+				return
+			}
+			switch b.kind {
+			case "sub":
+				pk.put("sub", b.dur)
+				cs.Subscribe(ctx, &SubscribeParams{URI: "file:///r"})
+			case "unsub":
+				pk.put("sub", 0)
+				cs.Subscribe(ctx, &SubscribeParams{URI: "file:///r"})
+				pk.put("unsub", b.dur)
+				cs.Unsubscribe(ctx, &UnsubscribeParams{URI: "file:///r"})
+			case "tool":
+				pk.put("tool", b.dur)
+				cs.CallTool(ctx, &CallToolParams{Name: "t", Arguments: map[string]any{}})
+			case "prompt":
+				pk.put("prompt", b.dur)
+				cs.GetPrompt(ctx, &GetPromptParams{Name: "p"})
+			case "res":
+				pk.put("res", b.dur)
+				cs.ReadResource(ctx, &ReadResourceParams{URI: "file:///r"})
+			case "compl":
+				pk.put("compl", b.dur)
+				cs.Complete(ctx, &CompleteParams{Ref: &CompleteReference{Type: "ref/prompt", Name: "p"}, Argument: CompleteParamsArgument{Name: "a", Value: "v"}})
+			}
+		}(b)
+	}
+	return func() { cs.Close(); ssOther.Close() }, nil
+}
+
+// kaServerWithHandlers: a Server whose user-supplied handlers park on pk.
+func kaServerWithHandlers(opts *ServerOptions, pk *kaParker) *Server {
+	opts.SubscribeHandler = func(context.Context, *SubscribeRequest) error { pk.park("sub"); return nil }
+	opts.UnsubscribeHandler = func(context.Context, *UnsubscribeRequest) error { pk.park("unsub"); return nil }
+	opts.CompletionHandler = func(context.Context, *CompleteRequest) (*CompleteResult, error) {
+		pk.park("compl")
+		return &CompleteResult{}, nil
+	}
+	srv := NewServer(&Implementation{Name: "s", Version: "1"}, opts)
+	srv.AddTool(&Tool{Name: "t", InputSchema: json.RawMessage(`{"type":"object"}`)}, func(context.Context, *CallToolRequest) (*CallToolResult, error) {
+		pk.park("tool")
+		return &CallToolResult{}, nil
+	})
+	srv.AddPrompt(&Prompt{Name: "p"}, func(context.Context, *GetPromptRequest) (*GetPromptResult, error) {
+		pk.park("prompt")
+		return &GetPromptResult{}, nil
+	})
+	srv.AddResource(&Resource{Name: "r", URI: "file:///r"}, func(context.Context, *ReadResourceRequest) (*ReadResourceResult, error) {
+		pk.park("res")
+		return &ReadResourceResult{Contents: []*ResourceContents{{URI: "file:///r", Text: "x"}}}, nil
+	})
+	return srv
+}
+
+// kaOtherClientSession gives cl a second session whose peer (a real Server) sends sampling / elicitation requests on
+// script; the client's handlers park on pk.
+func kaOtherClientSession(ctx context.Context, cl *Client, busy []kaBusy, pk *kaParker) (func(), error) {
+	ta, tb := NewInMemoryTransports()
+	srv := NewServer(&Implementation{Name: "other", Version: "1"}, nil)
+	ss, err := srv.Connect(ctx, ta, nil)
+	if err != nil {
+		return nil, err
+	}
+	cs, err := cl.Connect(ctx, tb, nil)
+	if err != nil {
+		return nil, err
+	}
+	for _, b := range busy {
+		go func(b kaBusy) {
+			defer func() { recover() }()
+			if !pk.sleep(b.from) {
+				return
+			}
+			switch b.kind {
+			case "sampling":
+				pk.put("sampling", b.dur)
+				ss.CreateMessage(ctx, &CreateMessageParams{MaxTokens: 1, Messages: []*SamplingMessage{{Role: "user", Content: &TextContent{Text: "x"}}}})
+			case "elicit":
+				pk.put("elicit", b.dur)
+				ss.Elicit(ctx, &ElicitParams{Message: "x", RequestedSchema: nil})
+			}
+		}(b)
+	}
+	return func() { cs.Close(); ss.Close() }, nil
 }
 
 var kaLogger = slog.New(slog.DiscardHandler)
@@ -432,6 +613,7 @@ func kaRunReal(t *testing.T, c *kaCase) (obs string) {
 		I := time.Duration(c.I)
 		var wait func() error
 		var closeSess func() error
+		closeOther := func() {}
 		peerConn, err := t1.Connect(ctx)
 		if err != nil {
 			obs = "connect-failed"
@@ -440,23 +622,47 @@ func kaRunReal(t *testing.T, c *kaCase) (obs string) {
 		peer.t0 = time.Now()
 		go peer.serve(ctx, peerConn)
 		if c.real == "server" {
-			srv := NewServer(&Implementation{Name: "s", Version: "1"}, &ServerOptions{KeepAlive: I, KeepAliveFailureThreshold: c.T, Logger: kaLogger})
+			pk := &kaParker{done: make(chan struct{})}
+			defer close(pk.done)
+			srv := kaServerWithHandlers(&ServerOptions{KeepAlive: I, KeepAliveFailureThreshold: c.T, Logger: kaLogger}, pk)
 			ss, err := srv.Connect(ctx, t2, nil)
 			if err != nil {
 				obs = "connect-failed"
 				return
 			}
 			wait, closeSess = ss.Wait, ss.Close
+			if len(c.busy) > 0 {
+				if closeOther, err = kaOtherServerSession(ctx, srv, pk, c.busy); err != nil {
+					obs = "connect-failed"
+					return
+				}
+			}
 		} else {
-			cl := NewClient(&Implementation{Name: "c", Version: "1"}, &ClientOptions{KeepAlive: I, KeepAliveFailureThreshold: c.T, Logger: kaLogger})
+			pk := &kaParker{done: make(chan struct{})}
+			defer close(pk.done)
+			cl := NewClient(&Implementation{Name: "c", Version: "1"}, &ClientOptions{KeepAlive: I, KeepAliveFailureThreshold: c.T, Logger: kaLogger,
+				CreateMessageHandler: func(context.Context, *CreateMessageRequest) (*CreateMessageResult, error) {
+					pk.park("sampling")
+					return &CreateMessageResult{Model: "m", Role: "assistant", Content: &TextContent{Text: "y"}}, nil
+				},
+				ElicitationHandler: func(context.Context, *ElicitRequest) (*ElicitResult, error) {
+					pk.park("elicit")
+					return &ElicitResult{Action: "decline"}, nil
+				}})
 			cs, err := cl.Connect(ctx, t2, nil)
 			if err != nil {
 				obs = "connect-failed"
 				return
 			}
 			wait, closeSess = cs.Wait, cs.Close
+			if len(c.busy) > 0 {
+				if closeOther, err = kaOtherClientSession(ctx, cl, c.busy, pk); err != nil {
+					obs = "connect-failed"
+					return
+				}
+			}
 		}
-		start := time.Since(peer.t0).Nanoseconds() // the handshake takes no virtual time
+		start := time.Since(peer.t0).Nanoseconds() // the handshakes take no virtual time
 		var mu sync.Mutex
 		closedAt := int64(-1)
 		go func() {
@@ -474,6 +680,8 @@ func kaRunReal(t *testing.T, c *kaCase) (obs string) {
 		peerConn.Close()
 		synctest.Wait()
 		time.Sleep(3 * I)
+		synctest.Wait()
+		closeOther()
 		synctest.Wait()
 		peer.mu.Lock()
 		defer peer.mu.Unlock()
@@ -504,6 +712,9 @@ func kaTags(c *kaCase, obs string) []string {
 	tags := []string{fmt.Sprintf("T=%d", c.T), fmt.Sprintf("len=%d", len(c.script))}
 	if c.real != "" {
 		tags = append(tags, "real-"+c.real)
+		for _, b := range c.busy {
+			tags = append(tags, "other-session-busy", "busy:"+b.kind)
+		}
 	} else {
 		tags = append(tags, "scripted")
 	}
@@ -696,6 +907,7 @@ func TestVerifKeepAlive(t *testing.T) {
 	emit := func(prefix string, c *kaCase) {
 		id := fmt.Sprintf("%s%d", prefix, n)
 		leaked := false
+		out.begin(id, c.op)
 		obs := kaRun(t, c, func(obs string) {
 			leaked = true
 			out.line(id, c.op(), obs, kaTags(c, obs)...)
@@ -714,8 +926,9 @@ func TestVerifKeepAlive(t *testing.T) {
 			t.Fatal(err)
 		}
 		for _, ln := range strings.Split(string(b), "\n") {
-			ln = strings.TrimSpace(ln)
-			if ln == "" || strings.HasPrefix(ln, "#") || ln == "reset" || strings.HasPrefix(ln, "kss ") || strings.Contains(ln, " side=http ") || strings.Contains(ln, " side=ctxw ") {
+			ln = strings.TrimPrefix(strings.TrimSpace(ln), "verif-hang ")
+			if ln == "" || strings.HasPrefix(ln, "#") || ln == "reset" || strings.HasPrefix(ln, "kss ") || strings.Contains(ln, " side=http ") || strings.Contains(ln, " side=ctxw ") || strings.Contains(ln, " side=srvw ") ||
+				(strings.HasPrefix(ln, "kas ") && !strings.Contains(ln, " side=client ") && !strings.Contains(ln, " side=server ")) {
 				continue // `kss` lines belong to the stream `sessions`, `kas side=http|ctxw` lines to the stream `http`
 			}
 			c, ok := kaParse(ln)
@@ -788,5 +1001,35 @@ func TestVerifKeepAlive(t *testing.T) {
 	nreal := verifN(300, 4000)
 	for i := 0; i < nreal; i++ {
 		emit("s", kaRandom(rng, 10, 4, []string{"server", "client"}[i%2]))
+	}
+	if os.Getenv("VERIF_CASES") == "" {
+		// a second session of the same Server / Client whose handler is parked across ticks of the observed one:
+		// every kind of handler x {answering peer, silent peer, one miss then answers} x thresholds 1..3 x
+		// parked {from before the first tick over 1.7 intervals, from mid-interval over 0.8 interval, within a ping's flight}
+		const I = 1000
+		for _, side := range []string{"server", "client"} {
+			for _, kind := range kaBusyKinds[side] {
+				for si, sc := range [][]kaStep{{{'a', 3}, {'a', 5}, {'a', 7}, {'a', 3}}, {{'n', 0}, {'n', 0}, {'n', 0}, {'n', 0}}, {{'n', 0}, {'a', 11}, {'n', 0}, {'n', 0}}} {
+					for T := 1; T <= 3; T++ {
+						for _, b := range []kaBusy{{kind, 737, 1741}, {kind, 1537, 841}, {kind, 1003, 307}} {
+							c := &kaCase{real: side, I: I, T: T, script: sc, tc: kaBetween(I, 4), busy: []kaBusy{b}}
+							if si == 0 && T == 3 {
+								c.busy = append(c.busy, kaBusy{kind, 2611, 977})
+							}
+							emit("b", c)
+						}
+					}
+				}
+			}
+		}
+	}
+	nbusy := verifN(150, 2000)
+	for i := 0; i < nbusy; i++ {
+		c := kaRandom(rng, 8, 4, []string{"server", "client"}[i%2])
+		kinds := kaBusyKinds[c.real]
+		for k := 1 + rng.Intn(3); k > 0; k-- {
+			c.busy = append(c.busy, kaBusy{kinds[rng.Intn(len(kinds))], 37 + c.I/100*rng.Int63n(400), 41 + c.I/100*rng.Int63n(250)})
+		}
+		emit("b", c)
 	}
 }
